@@ -138,6 +138,25 @@ def run(tier, rep, ev):
         opts = {"target": R.choice(["path", "stream"]), "read_kmode": R.choice(["zero", "half"]),
                 "filters_by_session": {s: R.choice([None, [{"id": 0x33}], [{"id": 0x21, "preset": 1}], [{"id": 0x32}]]) for s in range(1, 4)}}
         cases.append((h, opts, os.path.join(base, f"r{i}")))
+    # ---- writeall(): one call that archives a directory tree entry by entry; a fault at a nested entry, earlier entries already archived
+    for i in range(60 if tier == "quick" else 1000):
+        h = [{"op": "open"}]
+        for _ in range(R.randrange(0, 3)):
+            h.append({"op": "call", "k": R.choice(["writestr", "writef", "write"]), "n": R.randrange(1, 4), "fault": "none"})
+        nent = R.randrange(2, 6)
+        ents = [{"k": "writedir", "n": 4, "fault": "none"}] + [{"k": R.choice(["write", "write", "writedir"]), "n": 5 + j, "fault": "none"} for j in range(nent)]
+        if i % 4:
+            j = R.randrange(1, len(ents))
+            ents[j]["fault"] = R.choice(["open", "read", "lstat"] if ents[j]["k"] == "write" else ["lstat"])
+        h.append({"op": "writeall", "entries": ents})
+        for _ in range(R.randrange(0, 3)):
+            h.append({"op": "call", "k": R.choice(["writestr", "writef", "write"]), "n": R.randrange(1, 4), "fault": "none"})
+        h.append({"op": "close"})
+        if i % 3 == 0:
+            h += [{"op": "open"}, {"op": "call", "k": "writestr", "n": 3, "fault": "none"}, {"op": "close"}]
+        opts = {"target": R.choice(["path", "stream"]), "read_kmode": R.choice(["zero", "half"]),
+                "filters_by_session": {s: R.choice([None, [{"id": 0x33}], [{"id": 0x32}]]) for s in range(1, 3)}}
+        cases.append((h, opts, os.path.join(base, f"w{i}")))
     outs = sandbox.run_cases(execute, cases, timeout=60, nproc=16)
     traces, origins = [], []
     for (h, opts, _), o in zip(cases, outs):
